@@ -136,6 +136,15 @@ type nkOpts struct {
 	// Persistent puts the localstore on a private temp directory so that a
 	// restart finds its data again (the in-memory driver forgets on Close).
 	Persistent bool
+	// >>> w-bad (C06/C37) hooks: all optional, nil = unchanged behaviour
+	// WrapStorer wraps the localstore handed to retrieval and netstore (and,
+	// through netstore, to traversal and chunkinfo): a recording Put path.
+	WrapStorer func(n *nkNode, s storage.Storer) storage.Storer
+	// WrapRetrieval wraps the retrieval service handed to netstore.
+	WrapRetrieval func(n *nkNode, r retrieval.Interface) retrieval.Interface
+	// Route replaces the stub route table nkRoute.
+	Route func(n *nkNode) routetab.RouteTab
+	// <<< w-bad
 }
 
 // nkNode is one simulated node.
@@ -204,9 +213,22 @@ func (n *nkNode) build() error {
 	}
 	n.SubPub = subscribe.NewSubPub()
 	tracer, _, _ := tracing.NewTracer(&tracing.Options{Enabled: false})
-	route := &nkRoute{nd: n.Net}
-	n.Retr = retrieval.New(n.Addr, n.Net, route, n.LS, true, n.logger, tracer, nkAccounting{}, n.SubPub)
-	n.NS = netstore.New(n.LS, n.Retr, n.logger, n.Addr)
+	var route routetab.RouteTab = &nkRoute{nd: n.Net}
+	// >>> w-bad (C06/C37) hooks
+	var st storage.Storer = n.LS
+	if n.opts.Route != nil {
+		route = n.opts.Route(n)
+	}
+	if n.opts.WrapStorer != nil {
+		st = n.opts.WrapStorer(n, n.LS)
+	}
+	n.Retr = retrieval.New(n.Addr, n.Net, route, st, true, n.logger, tracer, nkAccounting{}, n.SubPub)
+	var ri retrieval.Interface = n.Retr
+	if n.opts.WrapRetrieval != nil {
+		ri = n.opts.WrapRetrieval(n, n.Retr)
+	}
+	n.NS = netstore.New(st, ri, n.logger, n.Addr)
+	// <<< w-bad
 	n.Trav = traversal.New(n.NS)
 	n.Pin = pinning.NewService(n.LS, n.State, n.Trav)
 	n.CI = chunkinfo.New(n.Addr, n.Net, n.logger, n.Trav, n.State, n.NS, route, n.oracle, nil, n.SubPub)
